@@ -1,4 +1,5 @@
 import TenpyModel.C13.P2_InfSweep
+import TenpyModel.C13.P2_SectorOrtho
 /-!
 # C13 — Props2
 
@@ -16,7 +17,14 @@ import TenpyModel.C13.P2_InfSweep
   two-site, before `R_i`: `LP[j] ↦ j (2 ≤ j ≤ i)`, `RP[j] ↦ L-1-j (j > i)`, `RP[0], RP[1]` stored;
   before `L_L`: `LP[0] ↦ L-1`, `LP[j] ↦ j-1`; before `L_{L-1}`: `LP[j] ↦ j-2`, `RP[0] ↦ 1`;
   before `L_i`: `LP[j] ↦ j-2 (j ≤ i)`, `RP[j] ↦ L+1-j (j > i)`; single-site analogously.
+* `C13_sector`, `C13_sector_chain`, `C13_sector_krylov`, `C13_sector_to_matrix`  the five coded `matvec` bodies of
+  `OneSiteH/TwoSiteH` over the C02 structure model: `qtotal(result) = make_valid(Σ qtotal(network) + theta.qtotal)`;
+  neutral network ⇒ the sector of `theta` is kept, for every vector a Krylov solver builds (helpers `P2_Sector*.lean`).
+* `C13_orthogonal_projector`, `…_gram_schmidt`, `…_abstract`, `…_counterexample`  `OrthogonalNpcLinearOperator`
+  (helpers `P2_Ortho*.lean`).
 -/
+
+section InfiniteEnv
 open TenpyModel.C13 TenpyModel.C13.P2
 
 namespace TenpyModel.C13.P2
@@ -77,3 +85,184 @@ example : ((sweeps 2 2 (Env.init 5 false 0 0)).map (fun r => r.2.map (fun l => (
   decide +kernel
 
 example : infiniteOK 9 1 2 = true ∧ infiniteOK 8 2 2 = true := by decide +kernel
+
+end InfiniteEnv
+
+/-! ## sector -/
+section Sector
+open TenpyModel.Core TenpyModel.C02 TenpyModel.C02P2 TenpyModel.C13.P2b
+
+/-- **`matvec` with `H.qtotal = 0` preserves `theta.qtotal`.**  `H : EffH` is one of the five coded bodies
+(`OneSiteH.matvec` without / with `combine` in both directions, `TwoSiteH.matvec` without / with `combine`), executed
+line by line over the C02 structure model (`tensordot`, `itranspose`; both kernels `cy`).  Sane operands, the call
+returns ⇒ the result is sane, over the same `chinfo` as `theta` and every network tensor, and
+`qtotal = make_valid(Σ qtotal(network tensors) + theta.qtotal)`; it equals `theta.qtotal` when the charges of the network
+tensors cancel modulo the charge moduli (`H.qtotal = 0`, see `C13_sector_to_matrix`), in particular when each is `0` —
+any number of charges, any moduli. -/
+theorem C13_sector (cy : Bool) (H : EffH) (θ r : ArrS) (labels : List Int)
+    (hH : ∀ X ∈ H.parts, X.WF) (hθ : θ.WF) (h : H.matvec cy θ labels = some r) :
+    r.WF ∧ r.mods = θ.mods ∧ (∀ X ∈ H.parts, X.mods = θ.mods) ∧
+    r.qtotal = makeValid θ.mods (cadd H.qsum θ.qtotal) ∧
+    (makeValid θ.mods H.qsum = czero θ.mods.length → r.qtotal = θ.qtotal) ∧
+    ((∀ X ∈ H.parts, X.qtotal = czero θ.mods.length) → r.qtotal = θ.qtotal) :=
+  sector_main cy H θ r labels hH hθ h
+
+open SectorEx in
+/-- non-vacuity (`U(1) × Z₂`, one-site network, environments with charges `(0,1)` that cancel mod 2; compiled-kernel
+variant): hypotheses hold, the call returns a tensor with blocks, in the sector `(1,1)` of `theta` -/
+example : (∀ X ∈ (H1 [0, 1] [0, 1]).parts, X.WF) ∧ theta.WF ∧
+    makeValid theta.mods (H1 [0, 1] [0, 1]).qsum = czero theta.mods.length ∧
+    (((H1 [0, 1] [0, 1]).matvec true theta [1, 0, 2]).map fun r => (r.legs == theta.legs, r.qtotal, r.qdata.length))
+      = some (true, [1, 1], 2) := by
+  decide +kernel
+
+/-- the same for ANY chain of `theta = tensordot(X, theta, axes)` / `theta = tensordot(theta, X, axes)` followed by a
+transpose: total charges add up; neutral operands keep the sector -/
+theorem C13_sector_chain (cy : Bool) (steps : List TdStep) (θ r : ArrS) (labels : Option (List Int))
+    (hs : ∀ s ∈ steps, s.arr.WF) (hθ : θ.WF)
+    (h : (TenpyModel.C13.P2b.runSteps cy steps θ).bind (fun t => t.itranspose labels) = some r) :
+    r.WF ∧ r.mods = θ.mods ∧ r.qtotal = makeValid θ.mods (chainCharge steps θ.qtotal) ∧
+    ((∀ s ∈ steps, s.arr.qtotal = czero θ.mods.length) → r.qtotal = θ.qtotal) :=
+  sector_main_a cy steps θ r labels hs hθ h
+
+open SectorEx in
+example : (∀ X ∈ H2.parts, X.WF) ∧ theta2.WF ∧ (∀ X ∈ H2.parts, X.qtotal = czero theta2.mods.length) ∧
+    ((H2.matvec true theta2 [1, 0, 2, 3]).map fun r => (r.legs == theta2.legs, r.qtotal, decide (0 < r.qdata.length)))
+      = some (true, [1, 1], true) := by
+  decide +kernel
+
+/-- **every Krylov vector stays in the sector of the start vector**: everything reachable from `θ0` by the coded
+`matvec` of a network with neutral charge sum, `iscale_prefactor` and `iadd_prefactor_other` (both outputs) is sane, over
+the `chinfo` of `θ0` and has `qtotal = θ0.qtotal`; two such vectors never trip the `qtotal` check of
+`iadd_prefactor_other`. -/
+theorem C13_sector_krylov (cy : Bool) (H : EffH) (labels : List Int) (θ0 : ArrS) (hθ : θ0.WF)
+    (hH : ∀ X ∈ H.parts, X.WF) (hz : makeValid θ0.mods H.qsum = czero θ0.mods.length) :
+    (∀ x, SectorReach cy (fun x => H.matvec cy x labels) θ0 x → x.WF ∧ x.mods = θ0.mods ∧ x.qtotal = θ0.qtotal) ∧
+    (∀ x y, SectorReach cy (fun x => H.matvec cy x labels) θ0 x →
+      SectorReach cy (fun x => H.matvec cy x labels) θ0 y → x.qtotal = y.qtotal) :=
+  sector_main_b cy (fun x => H.matvec cy x labels) θ0 hθ (sector_main_b_hyp cy H labels θ0 hH hz)
+
+open SectorEx in
+/-- non-vacuity: the hypotheses hold for the example network and the Krylov step
+`w = H theta; w.iadd_prefactor_other(-alpha, theta)` goes through -/
+example : theta.WF ∧ (∀ X ∈ (H1 [0, 1] [0, 1]).parts, X.WF) ∧
+    makeValid theta.mods (H1 [0, 1] [0, 1]).qsum = czero theta.mods.length ∧
+    (((H1 [0, 1] [0, 1]).matvec false theta [1, 0, 2]).bind fun w =>
+      ArrS.iaddPrefactorOther false w theta none false).isSome = true := by
+  decide +kernel
+
+/-- **`to_matrix()`**: the effective Hamiltonian as one matrix has `qtotal = make_valid(Σ qtotal(network tensors))`, so
+"`H.qtotal = 0`" is exactly the hypothesis `make_valid(H.qsum) = 0` of `C13_sector` -/
+theorem C13_sector_to_matrix (cy : Bool) (H : EffH) (axes : List TdAxes) (groups : List (List Nat)) (m : ArrS)
+    (hH : ∀ X ∈ H.parts, X.WF) (hax : axes.length = H.rest.length)
+    (h : H.toMatrix cy axes groups = some m) :
+    m.WF ∧ m.qtotal = makeValid H.first.mods H.qsum :=
+  sector_main_c cy H axes groups m hH hax h
+
+open SectorEx in
+example : (∀ X ∈ (H1 [0, 1] [0, 1]).parts, X.WF) ∧ tmAxes.length = (H1 [0, 1] [0, 1]).rest.length ∧
+    makeValid (H1 [0, 1] [0, 1]).first.mods (H1 [0, 1] [0, 1]).qsum = [0, 0] := by
+  decide +kernel
+
+end Sector
+
+/-! ## orthogonal projector -/
+section OrthoList
+open TenpyModel.C16 TenpyModel.C13.P2b
+
+/-- **`OrthogonalNpcLinearOperator` keeps results orthogonal to the given vectors** (list model of C16: `Op.ortho A os`,
+`Op.apply`, `build`, `runGS`).  `os` orthonormal (established by `__init__` via `gram_schmidt`, see
+`C13_orthogonal_projector_gram_schmidt`), `A` keeps the number of entries.  (1) every `matvec` result is orthogonal to
+every `o`, for every input; (2) start vector orthogonal to every `o`, exact normalisation (`rnd = id`; root oracle,
+convergence oracle, eigen-solver oracle, `E_shift`, `reortho`, `N_cache ≥ 1` arbitrary): every Lanczos vector, the FIFO
+cache at loop exit and the returned ground state are orthogonal to every `o`. -/
+theorem C13_orthogonal_projector (A : Op) (os : List Vec) (n : Nat) (hON : ON n os)
+    (hA : ∀ u : Vec, u.length = n → (A.apply u).length = n) :
+    (∀ v : Vec, v.length = n →
+      ((Op.ortho A os).apply v).length = n ∧ ∀ c ∈ os, dot c ((Op.ortho A os).apply v) = 0) ∧
+    (∀ (ar : Arith) (o : Opts) (eShift : Option Rat) (conv : Nat → List Rat → List Rat → Bool)
+        (eig : Nat → List Rat → List Rat → Rat × List Rat) (psi0 : Vec),
+      (∀ x, ar.rnd x = x) → 1 ≤ o.nCache → 1 ≤ o.nMax → psi0.length = n → (∀ c ∈ os, dot c psi0 = 0) →
+      (∀ j, ∀ c ∈ os, dot c (vAt (withShift (.ortho A os) eShift).apply ar o.reortho o.nCache psi0 j) = 0) ∧
+      (∀ N s, build (withShift (.ortho A os) eShift).apply ar o conv psi0 = some (N, s) →
+        ∀ v ∈ s.cache, ∀ c ∈ os, dot c v = 0) ∧
+      (∀ res, runGS (.ortho A os) ar o eShift conv eig psi0 = some res →
+        res.psi.length = n ∧ ∀ c ∈ os, dot c res.psi = 0)) :=
+  orthogonal_projector_main A os n hON hA
+
+open OrthoEx in
+/-- non-vacuity: `os = [e₀]`, start `(0,3,4) ⟂ e₀`: two Lanczos steps, returned vector `(0, -14/99, 98/99)` -/
+example : ON 3 [[1, 0, 0]] ∧ (∀ u : Vec, u.length = 3 → (path3.apply u).length = 3) ∧ (∀ x, ar.rnd x = x) ∧
+    dot [1, 0, 0] [0, 3, 4] = 0 ∧
+    (runGS (.ortho path3 [[1, 0, 0]]) ar opts none (fun _ _ _ => false) eig [0, 3, 4]).map (fun r => (r.N, r.psi))
+      = some (2, [0, -14 / 99, 98 / 99]) :=
+  ⟨on_e0, fun u _ => path3_len u, fun _ => rfl, by decide +kernel, by decide +kernel⟩
+
+/-- **the start vector must be orthogonal to `os`** — only `matvec` results are projected and neither `KrylovBased.__init__`
+nor the DMRG engine projects `theta_guess`: a run with orthonormal `os` whose returned vector overlaps with `o` -/
+theorem C13_orthogonal_projector_counterexample :
+    ∃ (A : Op) (os : List Vec) (ar : Arith) (o : Opts) (conv : Nat → List Rat → List Rat → Bool)
+      (eig : Nat → List Rat → List Rat → Rat × List Rat) (psi0 : Vec) (res : GSResult),
+      ON 3 os ∧ (∀ u : Vec, u.length = 3 → (A.apply u).length = 3) ∧ (∀ x, ar.rnd x = x) ∧ psi0.length = 3 ∧
+      runGS (.ortho A os) ar o none conv eig psi0 = some res ∧ ∃ c ∈ os, dot c res.psi ≠ 0 :=
+  orthogonal_projector_counterexample
+
+/-- **what the constructor establishes**: `__init__` stores `gram_schmidt(ortho_vecs)` (the `ortho_vecs` of
+`Sweep._wrap_ortho_eff_H` are neither normalised nor orthogonal).  Exact roots, `rcond ≥ 0`: the stored list is
+orthonormal and every `matvec` result is orthogonal to it; with `rcond = 0` and non-negative roots every `matvec` result is
+orthogonal to every GIVEN vector. -/
+theorem C13_orthogonal_projector_gram_schmidt (A : Op) (ar : Arith) (hr : ∀ x, ar.rnd x = x) (rcond : Rat)
+    (hrc : 0 ≤ rcond) (n : Nat) (vecs : List Vec) (hv : ∀ v ∈ vecs, v.length = n) (hex : GSExact ar rcond [] vecs)
+    (hA : ∀ u : Vec, u.length = n → (A.apply u).length = n) :
+    ON n (gramSchmidt ar rcond vecs) ∧
+    (∀ v : Vec, v.length = n → ∀ c ∈ gramSchmidt ar rcond vecs,
+      dot c ((Op.ortho A (gramSchmidt ar rcond vecs)).apply v) = 0) ∧
+    (rcond = 0 → (∀ x, 0 ≤ ar.sq x) →
+      (∀ y : Vec, (∀ c ∈ gramSchmidt ar rcond vecs, dot c y = 0) → ∀ w ∈ vecs, dot w y = 0) ∧
+      (∀ v : Vec, v.length = n → ∀ w ∈ vecs, dot w ((Op.ortho A (gramSchmidt ar rcond vecs)).apply v) = 0)) :=
+  orthogonal_projector_main_b A ar hr rcond hrc n vecs hv hex hA
+
+/-- non-vacuity: the non-orthonormal pair `(3,4), (1,0)`, `rcond = 0` -/
+example :
+    let ar : Arith := { sq := fun x => if x = 25 then 5 else if x = 16 / 25 then 4 / 5 else 0, rnd := id }
+    (∀ x, ar.rnd x = x) ∧ GSExact ar 0 [] [[3, 4], [1, 0]] ∧
+    gramSchmidt ar 0 [[3, 4], [1, 0]] = [[3 / 5, 4 / 5], [4 / 5, -3 / 5]] :=
+  ⟨fun _ => rfl, ⟨by decide +kernel, by decide +kernel, trivial⟩, by decide +kernel⟩
+
+end OrthoList
+
+section OrthoAbs
+open scoped InnerProductSpace
+open TenpyModel.C16.Abs TenpyModel.C13.P2b
+variable {𝕜 E : Type*} [RCLike 𝕜] [NormedAddCommGroup E] [InnerProductSpace 𝕜 E]
+
+/-- **abstract version** (`𝕜 = ℝ` or `ℂ`, any inner product space, `H` any map).  `orthoMatvec 𝕜 H os` is the coded
+`matvec` (project along `os`, apply `H`, project along `os[::-1]`).  For orthonormal `o`: it equals `P H P` with
+`P = 1 - Σ |o i⟩⟨o i|`; its results are orthogonal to every `o i`; every vector generated from `ψ0` by `matvec`, sums and
+multiples has overlaps `⟪o i, x⟫ = c ⟪o i, ψ0⟫`, hence is orthogonal to every `o i` when `ψ0` is; the three-term
+recurrence started at `v 0 ⟂ o` gives `v j ⟂ o` and `Σ y j • v j ⟂ o`. -/
+theorem C13_orthogonal_projector_abstract {k : ℕ} (H : E → E) (o : Fin k → E) (ho : Orthonormal 𝕜 o) :
+    (∀ x, orthoMatvec 𝕜 H (List.ofFn o) x = projCompl 𝕜 o (H (projCompl 𝕜 o x))) ∧
+    (∀ x i, ⟪o i, orthoMatvec 𝕜 H (List.ofFn o) x⟫_𝕜 = 0) ∧
+    (∀ ψ0 x, KrylovGen 𝕜 (orthoMatvec 𝕜 H (List.ofFn o)) ψ0 x → ∃ c : 𝕜, ∀ i, ⟪o i, x⟫_𝕜 = c * ⟪o i, ψ0⟫_𝕜) ∧
+    (∀ ψ0 x, (∀ i, ⟪o i, ψ0⟫_𝕜 = 0) → KrylovGen 𝕜 (orthoMatvec 𝕜 H (List.ofFn o)) ψ0 x → ∀ i, ⟪o i, x⟫_𝕜 = 0) ∧
+    (∀ (v : ℕ → E) (α β γ : ℕ → 𝕜) (m : ℕ),
+      (∀ j < m, β j • v (j + 1) = orthoMatvec 𝕜 H (List.ofFn o) (v j) - α j • v j - γ j • v (j - 1)) →
+      (∀ j < m, β j ≠ 0) → (∀ i, ⟪o i, v 0⟫_𝕜 = 0) →
+      (∀ j ≤ m, ∀ i, ⟪o i, v j⟫_𝕜 = 0) ∧ ∀ y : Fin (m + 1) → 𝕜, ∀ i, ⟪o i, ∑ j, y j • v j⟫_𝕜 = 0) :=
+  orthogonal_projector_main_a H o ho
+
+/-- non-vacuity: in `ℝ²`, `o = (e₀)` orthonormal, `ψ0 = e₁ ≠ 0` orthogonal to it -/
+example : ∃ (o : Fin 1 → EuclideanSpace ℝ (Fin 2)) (ψ0 : EuclideanSpace ℝ (Fin 2)),
+    Orthonormal ℝ o ∧ (∀ i, ⟪o i, ψ0⟫_ℝ = 0) ∧ ψ0 ≠ 0 := by
+  refine ⟨fun _ => EuclideanSpace.single 0 1, EuclideanSpace.single 1 1, ?_, ?_, ?_⟩
+  · rw [orthonormal_iff_ite]
+    intro i j
+    have : i = j := Subsingleton.elim i j
+    simp [this]
+  · intro i; simp [EuclideanSpace.inner_single_left]
+  · intro h
+    have := congrArg (fun v => v 1) h
+    simp at this
+
+end OrthoAbs
